@@ -585,6 +585,11 @@ impl WriteBuffer {
         self.get_shard_id(key)
     }
 
+    /// Flush requests queued for the workers and not yet picked up.
+    pub fn verif_requests_queued(&self) -> usize {
+        self.worker_channels.iter().map(|channel| channel.len()).sum()
+    }
+
     /// (entries still buffered per shard, entries waiting in the retirement queue)
     pub fn verif_pending(
         &self,
@@ -653,6 +658,8 @@ fn write_buffer_worker(ctx: WorkerContext, flush_rx: Receiver<FlushRequest>) {
             }
         };
 
+        #[cfg(feature = "verif")]
+        crate::verif::note("worker_begin", ctx.worker_id as u64, 0);
         let result = flush_worker_shards(&ctx, format, !req.defer_retirements);
         if let Some(tx) = req.response {
             let _ = tx.send(result);
